@@ -111,6 +111,16 @@ def perform(o, call, keep=None):
         return safe(lambda: np.asarray(g.ineqs_satisfied(np.ones(ncols, dtype=np.int64))).tolist())
     if k == "default_prios": return sorted([a, int(b)] for a, b in o.default_prios.items())
     if k == "leafs": return [v.id for v in o.leafs()]
+    if k == "leafs_edit":
+        # what a query returns is the caller's: the list of leafs is taken and then edited in place (sorted otherwise, emptied)
+        ls = o.leafs()
+        out = [v.id for v in ls]
+        try:
+            ls.reverse()
+            if ls: ls.pop()
+        except Exception:
+            pass
+        return out
     if k == "select":
         rec = Recorder()
         res = safe(lambda: jsonable(list(o.select(call["prio"], solver=rec, only_leafs=call.get("only_leafs", False)))))
@@ -143,7 +153,7 @@ def gen_call(rng, o, t, is_cfg, prev=None):
     lv = leaves_of(t)
     kinds = ["evaluate", "evalprops", "assume", "reduce", "negate", "negate", "errors", "to_json", "to_b64", "encode", "flatten", "solve", "json_roundtrip"]
     if is_cfg:
-        kinds += ["ge_polyhedron", "ge_polyhedron", "default_prios", "leafs", "select", "select", "add", "poly_query", "poly_query"]
+        kinds += ["ge_polyhedron", "ge_polyhedron", "default_prios", "leafs", "leafs_edit", "select", "select", "add", "poly_query", "poly_query"]
     k = rng.choice(kinds)
     c = {"k": k}
     if k in ("evaluate", "evalprops", "assume"):
@@ -285,6 +295,24 @@ def do_case(ctx, inp):
         for r_ in got:
             kept.append({"obj": r_, "snap": snap(r_), "step": step,
                          "nodes": [(n, (int(n.bounds.lower), int(n.bounds.upper))) for n in node_objects(r_)]})
+        if c["k"] == "assume" and got and ctx.rng.random() < 0.35:
+            # the model an assumption returned is asked something itself — about one of its own sub-propositions: whatever that
+            # does to the returned model (the known leak F-C09a concerns the object a call is made on), the model it came from
+            # and every other live object stay what they were
+            r_ = got[0]
+            tr = snap(r_)
+            cids = [x for x in compound_ids(tr) if x != tr["id"]]
+            if cids:
+                cid = ctx.rng.choice(cids)
+                safe(lambda: r_.evaluate({cid: ctx.rng.choice([0, 1])}))
+                ctx.tags["returned-model-queried-about-its-own-sub-proposition"] += 1
+                now = [snap(x) for x in live]
+                if now != after:
+                    j_ = next(j for j, (x, y) in enumerate(zip(after, now)) if x != y)
+                    ctx.fail("query-on-a-returned-model-changed-the-model-it-came-from",
+                             {"step": step, "call": c, "then": f"result.evaluate({{{cid!r}: ...}})", "object": j_}); return
+                kept[-1]["snap"] = snap(r_)
+                kept[-1]["nodes"] = [(n, (int(n.bounds.lower), int(n.bounds.upper))) for n in node_objects(r_)]
         if len(kept) > 6: del kept[0]
         if c["k"] in ("evaluate", "evalprops", "assume") and any(a in compound_ids(t) for a in c.get("I", {})):
             named_cid[i] = True
